@@ -9,7 +9,7 @@ ScalarBaseMult = X25519 with any encoding of the base point; encodings and clamp
 DH symmetry.  The generator names the real input classes (5 low-order u, small u with aliases, random u; clamp-equivalent
 scalars, zero, all-ones) x API; the harness materialises them and compares the real package with an independent
 math/big implementation of RFC 7748 (anchored by the RFC vectors) and with crypto/ecdh called directly."""
-import concurrent.futures
+import concurrent.futures, json
 import vlib
 
 
@@ -18,7 +18,10 @@ def run(ctx):
     ctx.rule = ("cases = (API, scalar class, u class, +p alias, top bit) enumerated by TLC from X25519Wrap_MC: u in {0, 1, p-1, the two order-8 values, 9, 2, 18, "
                 "two random} x {canonical, top bit set} and {u+p, u+p with top bit} for u < 19; scalars {two random, three clamp-equivalent variants, all-zero, all-ones}; "
                 "APIs X25519, ScalarMult, ScalarBaseMult; plus a sweep: every u in p..2^255-1 x top bit x 3 scalars, seeded random (scalar, u) pairs on all three entry points, "
-                "DH symmetry on random pairs, wrong lengths, the RFC 7748 iterated vector (1 iteration; 1000 in the thorough tier); distinct = distinct (API, scalar, u) byte strings")
+                "DH symmetry on random pairs, wrong lengths, the RFC 7748 iterated vector (1 iteration; 1000 in the thorough tier); plus the neighbourhoods enumerated by TLC from X25519Nbhd: "
+                "for each special u encoding (9, 0, 1, p-1, p..p+18, the order-8 values, top-bit forms, all-0xff, 2^255-1, an ordinary u) every single-byte deviation at bytes "
+                "{0,1,15,16,30,31} x {01,7f,80,ff} x {xor, replace} and every bit flip of byte 31; for the base point every value of the last byte and of byte 0; the same around the scalars "
+                "0, 1, 8, 2^254, 2^255-1, all-0xff plus all variations of the 3 low / 2 high bits clamping ignores; distinct = distinct (API, scalar, u) byte strings")
     ctx.assumptions = [
         "the RFC 7748 function value is taken from an independent math/big transcription of RFC 7748 section 5 in the harness (anchored on every run by the RFC's section 5.2 and 6.1 vectors) "
         "and from crypto/ecdh called directly; the two must agree on every input or the run stops as an infrastructure error",
@@ -27,15 +30,19 @@ def run(ctx):
         "scalars and u values beyond the named classes are seeded random samples",
     ]
     if ctx.replay:
-        import json
         d = json.load(open(ctx.replay))["violation"]["detail"]
-        if d.get("case"):
+        if d.get("case") and "canon" in d["case"]:
+            ctx.absorb(ctx.go_test("c11", "TestNbhd", cases=[d["case"]], timeout=600))
+        elif d.get("case"):
             ctx.absorb(ctx.go_test("c11", "TestReplay", cases=[d["case"]], timeout=600))
         else:
             ctx.absorb(ctx.go_test("c11", "TestSweep", timeout=900))
         return
     jobs = {"toy5": dict(module="X25519Wrap", cfg="X25519Wrap_Toy5.cfg", workers=ctx.pick(6, 6), note="toy group Z_8 x Z_5: all calls of the three entry points"),
-            "gen": dict(module="X25519Wrap_MC", cfg="X25519Wrap_Gen.cfg", workers=1, note="real input classes x API with predicted error and value identity")}
+            "gen": dict(module="X25519Wrap_MC", cfg="X25519Wrap_Gen.cfg", workers=1, note="real input classes x API with predicted error and value identity"),
+            "nbhd": dict(module="X25519Nbhd", cfg="X25519Nbhd.cfg", workers=4,
+                         note="RFC 7748 decodeUCoordinate / decodeScalar25519 evaluated on the neighbourhoods of every special u and scalar encoding; "
+                              "base point has exactly its four encodings, low order exactly the known ones, clamping forgets exactly 5 bits")}
     if ctx.thorough:
         jobs["toy7"] = dict(module="X25519Wrap", cfg="X25519Wrap_Toy7.cfg", workers=6, note="toy group Z_8 x Z_7")
         jobs["toy11"] = dict(module="X25519Wrap", cfg="X25519Wrap_Toy11.cfg", workers=8, note="toy group Z_8 x Z_11")
@@ -53,5 +60,16 @@ def run(ctx):
     ctx.log("TLC: %d class cases" % len(cases))
     ctx.absorb(ctx.go_test("c11", "TestReplay", cases=cases, timeout=900))
     ctx.absorb(ctx.go_test("c11", "TestSweep", timeout=1200))
+    nb = res["nbhd"].traces
+    if len(nb) < 2500:
+        raise vlib.Infra("neighbourhood generator produced too few cases: %d" % len(nb))
+    rn = ctx.go_test("c11", "TestNbhd", cases=nb, timeout=1500)
+    ctx.absorb(rn)
+    cls = rn.get("extra", {}).get("neighbourhood_classes") or {}
+    # vacuity guard: the base point's neighbourhood must have been run on the real package
+    if cls.get("basepoint-lastbyte", 0) < 256 or cls.get("basepoint-byte0", 0) < 256 or cls.get("nbhd:9", 0) < 30 or cls.get("nbhd:9|top", 0) < 30 \
+            or cls.get("nbhd:p+k", 0) < 300 or not any(k.startswith("snbhd:") for k in cls):
+        raise vlib.Infra("neighbourhood classes not exercised: %s" % json.dumps(cls, sort_keys=True)[:600])
+    ctx.log("neighbourhoods: %d cases in %d classes, %d evaluations" % (len(nb), len(cls), rn.get("evaluations", 0)))
     ctx.exhaustive = True
     ctx.notes.append("exhaustive over the model's input classes and the 19 non-canonical values p..2^255-1; scalars and generic u sampled (seeded)")
